@@ -43,3 +43,15 @@ package jp
 //@     let bytes0 = str($s)
 //@     invariant ident(str($s), bytes0)
 //@     invariant [C14 token] forall j: 0 <= j && j <= $k ==> tokenMap[f[j]] != '.'
+
+//@ unit jpget
+
+// Index fragment on a plain array: exactly the element the index denotes is read (negative from the end), and
+// nothing is read when the index denotes no element.
+//@ func (Expr).Get
+//@   region nthAny = case Nth > case []any
+//@     let i0 = i
+//@     let has0 = has
+//@     let v0 = v
+//@     assert [C05 C11 nth] spec.NormIndex(i0, len(tv)) >= 0 ==> has && v == tv[spec.NormIndex(i0, len(tv))]
+//@     assert [C05 C11 nth] spec.NormIndex(i0, len(tv)) < 0 ==> has == has0 && v == v0
